@@ -3,17 +3,30 @@
 // wall-clock ordering: the history order is the order of appends under one mutex.
 //
 // closer kinds:
-//   F  returns at once
-//   A  blocks until every closer of the case has been called (isolation probe).  If the others
-//      are never called it gives up after a generous timeout and the run is classified "stalled".
-//   W  blocks until it observes that App.Close has already returned (that observation is the
-//      violation and shows in the history as close_returned before ret_i) or a short deadline.
+//
+//	F  returns at once
+//	A  blocks until every closer of the case has been called (isolation probe).  If the others
+//	   are never called it gives up after a generous timeout and the run is classified "stalled".
+//	W  blocks until it observes that App.Close has already returned (that observation is the
+//	   violation and shows in the history as close_returned before ret_i) or a short deadline.
+//
+// closer shapes (how the component is laid out in memory; identity must never be the address):
+//
+//	P    an ordinary pointer to a struct with state of its own
+//	Zk   a pointer to the k-th ZERO-SIZE closer type of zero.go: every such pointer has the same
+//	     address (runtime.zerobase); the instance cannot keep state, so what it has to do and
+//	     what it did is kept per TYPE in ztable (keyed by the type name)
+//	O:j  a struct whose FIRST field is the closer of slot j; both &outer and &outer.first are
+//	     registered, two different components at one address
+//	I    the first field of the O slot that points here
 package main
 
 import (
 	"errors"
 	"fmt"
 	"runtime"
+	"strconv"
+	"strings"
 	"sync"
 	"sync/atomic"
 	"time"
@@ -28,8 +41,10 @@ type Case struct {
 	N     int      `json:"n"`
 	Kinds []string `json:"kinds"`
 	Fails []bool   `json:"fails"`
-	Procs int      `json:"procs"`
-	WdlMs int      `json:"wdl_ms"`
+	// Shapes is parallel to Kinds; absent = every closer is an ordinary pointer ("P")
+	Shapes []string `json:"shapes"`
+	Procs  int      `json:"procs"`
+	WdlMs  int      `json:"wdl_ms"`
 }
 
 type Event struct {
@@ -74,7 +89,8 @@ func (r *recorder) add(e Event) {
 	r.mu.Unlock()
 }
 
-type closer struct {
+// core is what one closer has to do and where it reports to.
+type core struct {
 	id   int
 	kind string
 	fail bool
@@ -82,9 +98,22 @@ type closer struct {
 	rec  *recorder
 }
 
-func (c *closer) Naming() string { return fmt.Sprintf("closer%d", c.id) }
+// closer: the ordinary shape.
+type closer struct{ core }
 
-func (c *closer) Close() error {
+func (c *closer) Naming() string { return fmt.Sprintf("closer%d", c.id) }
+func (c *closer) Close() error   { return c.core.run() }
+
+// outer: a closer whose first field is another closer that is registered on its own.
+type outer struct {
+	first closer
+	self  core
+}
+
+func (o *outer) Naming() string { return fmt.Sprintf("closer%d", o.self.id) }
+func (o *outer) Close() error   { return o.self.run() }
+
+func (c *core) run() error {
 	c.rec.add(Event{K: "call", I: c.id})
 	switch c.kind {
 	case "A":
@@ -108,6 +137,54 @@ func (c *closer) Close() error {
 	return nil
 }
 
+// build makes the components of a case in slot order (= registration order).
+func build(c Case, rec *recorder) (comps []any, bad string) {
+	mk := func(i int) core {
+		return core{id: i + 1, kind: c.Kinds[i], fail: c.Fails[i], wdl: time.Duration(c.WdlMs) * time.Millisecond, rec: rec}
+	}
+	shape := func(i int) string {
+		if i < len(c.Shapes) && c.Shapes[i] != "" {
+			return c.Shapes[i]
+		}
+		return "P"
+	}
+	zreset()
+	comps = make([]any, c.N)
+	for i := 0; i < c.N; i++ {
+		sh := shape(i)
+		switch {
+		case sh == "P":
+			comps[i] = &closer{core: mk(i)}
+		case sh == "I":
+			// made by its outer
+		case strings.HasPrefix(sh, "Z"):
+			k, err := strconv.Atoi(sh[1:])
+			if err != nil || k < 0 || k >= len(zeroTypes) {
+				return nil, "unknown zero-size type " + sh
+			}
+			if !zset(zeroTypes[k].name, mk(i)) {
+				return nil, "zero-size type used twice " + sh
+			}
+			comps[i] = zeroTypes[k].mk()
+		case strings.HasPrefix(sh, "O:"):
+			j, err := strconv.Atoi(sh[2:])
+			if err != nil || j < 0 || j >= c.N || shape(j) != "I" || comps[j] != nil {
+				return nil, "bad outer " + sh
+			}
+			o := &outer{first: closer{core: mk(j)}, self: mk(i)}
+			comps[i], comps[j] = o, &o.first
+		default:
+			return nil, "unknown shape " + sh
+		}
+	}
+	for i := range comps {
+		if comps[i] == nil {
+			return nil, fmt.Sprintf("slot %d (%s) has no component", i, shape(i))
+		}
+	}
+	return comps, ""
+}
+
 func runCase(c Case) (out Out) {
 	out = Out{ID: c.ID, Outcome: "ok"}
 	if c.Procs > 0 {
@@ -118,11 +195,12 @@ func runCase(c Case) (out Out) {
 	if c.N == 0 {
 		close(rec.allCalled)
 	}
-	var comps []any
-	for i := 0; i < c.N; i++ {
-		comps = append(comps, &closer{id: i + 1, kind: c.Kinds[i], fail: c.Fails[i],
-			wdl: time.Duration(c.WdlMs) * time.Millisecond, rec: rec})
+	comps, bad := build(c, rec)
+	if bad != "" {
+		out.Outcome, out.Detail = "runerr", "bad case: "+bad
+		return
 	}
+	defer zreset()
 	a := app.NewApp()
 	var runErr error
 	if p := hx.Guard(func() {
